@@ -1,17 +1,21 @@
-# Per-property configuration for ./check: package, tests, (shards, checks-per-shard) per tier.
+# Per-property configuration for ./check.  Each property package cNN/ holds a prop.py
+# defining PROP = dict(pkg=..., level=..., level_text=..., level_note=..., technique=...,
+# rule=..., assumptions=[...], tests=[dict(name=..., quick=(shards, checks), thorough=(shards, checks))]).
+# Properties without a package are listed as not_applicable (pending) until their check exists.
+import glob, os, re
+
 HOOK_COMMITS = []
+ALL = ["C%02d" % i for i in range(1, 21)]
+PROPS = {}
+_here = os.path.dirname(os.path.abspath(__file__))
+for _f in sorted(glob.glob(os.path.join(_here, "c[0-9][0-9]", "prop.py"))):
+    _ns = {}
+    exec(open(_f).read(), _ns)
+    _pid = "C" + os.path.basename(os.path.dirname(_f))[1:]
+    _p = _ns["PROP"]
+    _p.setdefault("pkg", "c" + _pid[1:])
+    PROPS[_pid] = _p
 
-PENDING = "check not built yet in this round (work in progress; see DESIGN.md section 8)"
-NOT_APPLICABLE = {p: PENDING for p in ["C01","C02","C03","C04","C05","C06","C07","C08","C09","C10","C11","C12","C13","C14","C15","C16","C17","C19","C20"]}
-
-PROPS = {
-    "C18": dict(
-        pkg="c18", level="fault_enumeration",
-        rule="C18: every sink-write fault position of every generated (format, options, sequence) case",
-        assumptions=["sink faults are modelled by an io.WriteCloser whose k-th Write returns an error (or a short count with io.ErrShortWrite); Close of the sink itself never fails"],
-        level_text="Fault enumeration: for every generated (format, writer options, value sequence) case, every sink write position and every failure mode is executed and the error-reporting oracle checked; the input space itself is sampled by rapid.",
-        level_note="Trusted: the fault-injecting sink (harness code), the repo's readers for the fault-free readability check. Not covered: arrows/parquet writers, failures of the sink's Close.",
-        technique="property-based testing (rapid) with exhaustive fault-position enumeration per generated case",
-        tests=[dict(name="TestSinkFaults", quick=(8, 250), thorough=(16, 1500))],
-    ),
-}
+NOT_APPLICABLE_REASONS = {}
+PENDING = "check not built yet (work in progress; see DESIGN.md section 8)"
+NOT_APPLICABLE = {p: NOT_APPLICABLE_REASONS.get(p, PENDING) for p in ALL if p not in PROPS}
